@@ -9,6 +9,11 @@
 // one bool, one int, one ByteBuffer - across string-keyed maps, numeric-keyed maps and
 // slices of the same shared values.  Every shared value of the run must be, after the
 // goroutines have finished, what it was before they started.
+// Fourth population (leaves.go): for EVERY shipped inspector type, private values copied
+// from templates in which every pointer - fields, slice elements, map values, map keys -
+// has a cell of its own, written at every leaf (Set, SetWithBuffer, Reset, the owner's
+// direct writes) while the others read the templates; a private value must be, through
+// every pointer, what its goroutine left there.
 // RACERUN_TRACE=1 prints every goroutine's calls and results (the run alone).
 //
 //	racerun <seed> <goroutines> <ops-per-goroutine>
@@ -78,9 +83,10 @@ func work(seed int64, gid, nops int, written func()) ([]string, []string) {
 	out := make([]string, 0, nops+1)
 	ds := &derivedState{}
 	sc := newScratch(gid)
+	lv := &leavesState{}
 	for k := 0; k < nops; k++ {
 		var res string
-		switch r.Intn(23) {
+		switch r.Intn(27) {
 		case 0, 1, 2:
 			v, err := objIns.Get(shared, getPaths[r.Intn(len(getPaths))]...)
 			res = "get " + emit.DumpDeref(reflect.ValueOf(v)) + " " + fmt.Sprint(err)
@@ -154,6 +160,9 @@ func work(seed int64, gid, nops int, written func()) ([]string, []string) {
 		case 16, 17, 18, 19:
 			// private values derived from shared ones (derived.go)
 			res = ds.step(r)
+		case 23, 24, 25, 26:
+			// every leaf of private values copied from templates of every shipped type (leaves.go)
+			res = lv.step(r)
 		default:
 			// read operations on shared values with the goroutine's reused scratch state (scratch.go)
 			res = sc.step(r)
@@ -161,8 +170,8 @@ func work(seed int64, gid, nops int, written func()) ([]string, []string) {
 		out = append(out, res)
 	}
 	written()
-	out = append(out, ds.final(), sc.final())
-	return out, append(ds.bad, sc.bad...)
+	out = append(out, ds.final(), sc.final(), lv.final())
+	return out, append(append(ds.bad, sc.bad...), lv.bad...)
 }
 
 func main() {
@@ -219,7 +228,7 @@ func main() {
 	if first == "" && len(changed) > 0 {
 		first = changed[0]
 	}
-	fmt.Printf("calls=%d mismatches=%d not-as-stored=%d shared-values-changed=%d %s\n", g*(nops+2), mism, foreign, len(changed), first)
+	fmt.Printf("calls=%d mismatches=%d not-as-stored=%d shared-values-changed=%d %s\n", g*(nops+3), mism, foreign, len(changed), first)
 	if mism > 0 || foreign > 0 || len(changed) > 0 {
 		os.Exit(3)
 	}
